@@ -526,6 +526,23 @@ func execBack(cfg *Cfg, o *harness.Outcome, clk *sim.Clock, lis *listener) {
 		o.Fail("C03.probe-completion-lost-after-clock-step-back", 0, "breaker %+v opened, its probe was admitted after the retry timeout, the clock was set back by %d ms and the probe completed (%s): the listeners heard %v, the probe's outcome demands %s -> %s as the third transition", r.BreakerRule, cfg.BackMs, map[bool]string{true: "failed", false: "ok"}[failed], lis.log, model.StateName[want.from], model.StateName[want.to])
 		return
 	}
+	if !failed {
+		// the successful probe closed the breaker and cleared its statistics: successful requests right afterwards
+		// (the clock is still behind) are served and change nothing
+		for i := 0; i < 2; i++ {
+			if !request(false, 1) && !o.Failed() {
+				o.Fail("C03.reopened-without-a-failure-after-clock-step-back", 0, "breaker %+v: closed by its successful probe behind a clock step back of %d ms; successful request %d right afterwards was rejected (listeners heard %v)", r.BreakerRule, cfg.BackMs, i+1, lis.log)
+				return
+			}
+			if o.Failed() {
+				return
+			}
+		}
+		if len(lis.log) != 3 {
+			o.Fail("C03.reopened-without-a-failure-after-clock-step-back", 0, "breaker %+v: closed by its successful probe behind a clock step back of %d ms (statistics cleared); two successful requests followed and the listeners heard %v - no request has failed since the breaker closed", r.BreakerRule, cfg.BackMs, lis.log)
+			return
+		}
+	}
 	// once the clock has caught up and a full retry timeout has passed, the resource serves a request again
 	clk.AdvanceMs(cfg.BackMs + 2*r.RetryMs + r.StatMs)
 	if !request(false, 1) && !o.Failed() {
